@@ -145,12 +145,12 @@ Proof.
       exists [], sid, t, older, tgt, enq, d. auto.
 Qed.
 
-Lemma cancel_ok_b_inv s : InvCan s -> cancel_ok_b (trace s) = true.
+Lemma cancel_ok_b_inv v s : InvCan v s -> cancel_ok_b (trace s) = true.
 Proof.
   intros HC. unfold cancel_ok_b.
   apply (cancel_ok_aux_ok (trace s)) with (older := []).
   - intros l1 sid tc l2 u tgt enq d Heq Hs Hlt.
-    destruct (c_L _ HC _ _ _ _ Heq _ _ _ _ Hs Hlt) as (_ & _ & Hd). exact Hd.
+    destruct (c_L _ _ HC _ _ _ _ Heq _ _ _ _ Hs Hlt) as (_ & _ & Hd). exact Hd.
   - now rewrite app_nil_r.
   - intros u sid due [].
   - intros u [].
@@ -166,7 +166,7 @@ Proof.
   - apply nodup_N_spec, (i_dlv_nodup _ HI).
   - now apply not_early_b_inv.
   - now apply due_sorted_b_inv.
-  - now apply cancel_ok_b_inv.
+  - now apply (cancel_ok_b_inv v).
 Qed.
 
 (* conversely, what acceptance by the oracle means for the first two clauses *)
